@@ -43,14 +43,22 @@ def run_one(slot, name, patch, run_tests, props):
     res = {"violations": {}, "known": {}, "wall": {}}
     if run_tests:
         t0 = time.time()
-        r = sh(["cargo", "test", "--workspace", "--no-fail-fast", "--offline"], cwd=wt,
-               env=dict(os.environ, CARGO_NET_OFFLINE="true",
-                        CARGO_TARGET_DIR=os.path.join(SLOTS, "slot%d" % slot, "target")), timeout=1800)
-        passed = sum(int(l.split("ok. ")[1].split(" passed")[0]) for l in r.stdout.splitlines()
+        try:
+            r = sh(["timeout", "-k", "5", "420", "cargo", "test", "--workspace", "--no-fail-fast",
+                    "--offline"], cwd=wt,
+                   env=dict(os.environ, CARGO_NET_OFFLINE="true",
+                            CARGO_TARGET_DIR=os.path.join(SLOTS, "slot%d" % slot, "target")), timeout=600)
+            out, rc = r.stdout, r.returncode
+        except subprocess.TimeoutExpired:
+            out, rc = "", 124
+        passed = sum(int(l.split("ok. ")[1].split(" passed")[0]) for l in out.splitlines()
                      if l.startswith("test result: ok."))
-        failed = [l for l in r.stdout.splitlines() if l.startswith("test result: FAILED") or " FAILED" in l
+        failed = [l for l in out.splitlines() if l.startswith("test result: FAILED") or " FAILED" in l
                   or l.startswith("error")]
-        res["tests"] = {"passed": passed, "failed_lines": failed[:6], "rc": r.returncode,
+        if rc == 124:
+            failed.append("test suite did not finish within 420 s (a test hangs)")
+            sh(["pkill", "-9", "-f", os.path.join(SLOTS, "slot%d" % slot, "target")])
+        res["tests"] = {"passed": passed, "failed_lines": failed[:6], "rc": rc,
                         "wall": round(time.time() - t0, 1)}
     env = dict(os.environ, VERIF_REPO=wt, VERIF_EVIDENCE_DIR=ev, CARGO_NET_OFFLINE="true")
     for p in props:
@@ -111,7 +119,7 @@ def main():
             sys.exit(2)
         shutil.copy(os.path.join(REPO, "Cargo.lock"), os.path.join(wt, "Cargo.lock"))
     results = {}
-    if os.path.exists(a.out) and a.names:
+    if os.path.exists(a.out) and (a.names or a.seeded):
         results = json.load(open(a.out))
     try:
         import queue
@@ -132,7 +140,13 @@ def main():
             finally:
                 slots.put(s)
         with concurrent.futures.ThreadPoolExecutor(jobs) as ex:
-            for name, res in ex.map(work, items):
+            futs = [ex.submit(work, it) for it in items]
+            for fut in concurrent.futures.as_completed(futs):
+                try:
+                    name, res = fut.result()
+                except Exception as e:      # keep going: one broken item must not lose the others
+                    print("ERROR in worker: %r" % (e,), flush=True)
+                    continue
                 results[name] = res
                 caught = sorted(res.get("violations", {}))
                 exp = res.get("expect", [])
